@@ -407,13 +407,25 @@ fn explore(prop: &str, rep: &mut Report, sched: &Arc<Sched>, ops: &[&OpDef], mix
             judge(prop, rep, ops, mixed, &out, &f, &seq, &format!("dfs prefix {prefix:?} timeouts={}", if eager { "eager" } else { "lazy" }));
             let deviations = prefix.iter().filter(|c| **c != 0).count();
             if deviations < bound {
+                let mut children: Vec<Vec<usize>> = Vec::new();
                 for (i, cp) in out.choices.iter().enumerate().skip(prefix.len()) {
                     for alt in 1..cp.candidates {
                         let mut p: Vec<usize> = out.choices[..i].iter().map(|c| c.taken).collect();
                         p.push(alt);
-                        stack.push(p);
+                        children.push(p);
                     }
                 }
+                // single deviations from the default schedule: when there are more deviation points than the budget allows,
+                // take them evenly spaced over the whole run instead of only the last ones (the stack is last-in first-out)
+                if prefix.is_empty() && children.len() + 1 > dfs_cap {
+                    let keep = if bound == 1 { dfs_cap.saturating_sub(1).max(1) } else { (dfs_cap / 3).max(1) };
+                    let n = children.len();
+                    let picked: Vec<Vec<usize>> = (0..keep).map(|k| children[(k * n / keep + (n / keep) / 2).min(n - 1)].clone()).collect();
+                    rep.count("dfs_tuples_with_evenly_spaced_deviation_points", 1);
+                    children = picked;
+                    children.dedup();
+                }
+                stack.extend(children);
             }
         }
         rep.count("dfs_schedules", done as u64);
